@@ -145,6 +145,13 @@ def np_linspace(eng, args, kwargs):
     if kind_of(a) is None or kind_of(b) is None or kind_of(m) not in ("int",):
         raise Unsupported("np.linspace arguments")
     used(eng, "np.linspace(a,b,m): length m; out[k] = a + k*(b-a)/(m-1); out[0] = a; out[m-1] = b (m >= 2)")
+    if isinstance(m, int) and not isinstance(m, bool):
+        if m < 0:
+            raise ProgExc(ValueError, "Number of samples must be non-negative")
+        if m <= 1:
+            return NArr((m,), [narr.cast(eng, a, "real")] * m, "real")
+        az, bz = to_z3(a, "real"), to_z3(b, "real")
+        return NArr((m,), [eng.snum(az + z3.RealVal(k) * (bz - az) / z3.RealVal(m - 1), "real") for k in range(m - 1)] + [narr.cast(eng, b, "real")], "real")
     mz = to_z3(m, "int")
     if not eng.branch(eng.sbool(mz >= 0)):
         raise ProgExc(ValueError, "Number of samples must be non-negative")
@@ -230,7 +237,7 @@ def b_int(eng, args, kwargs):
     if len(args) == 1 and isinstance(args[0], Sym) and args[0].kind == "real":
         z = args[0].z
         if z3.is_app_of(z, z3.Z3_OP_TO_REAL):
-            return Sym(z.arg(0), "int")
+            return _split_small(eng, Sym(z.arg(0), "int"))
         eng.assumptions.add("int(x) of a real: truncation toward zero")
         key = ("trunc", z.sexpr())
         if key not in eng.ghost:
@@ -238,8 +245,147 @@ def b_int(eng, args, kwargs):
             tr = z3.ToReal(t.z)
             eng.assume(z3.If(z >= 0, z3.And(tr <= z, z < tr + 1), z3.And(tr - 1 < z, z <= tr)))
             eng.ghost[key] = t
-        return eng.ghost[key]
+        return _split_small(eng, eng.ghost[key])
     return _prev_int(eng, args, kwargs)
+
+
+SMALL_COUNT_CAP = 8
+
+
+def _split_small(eng, v):
+    """Contract option `split_small_counts`: an int(...) of a real whose value the quantifier-free path condition confines to
+    0..SMALL_COUNT_CAP is case-split (the path forks on the value; sound: a case distinction on a value known to lie in that range),
+    so that array sizes derived from it are concrete.  Without the option, or without such a bound, the symbolic int is returned."""
+    from .engine import _has_quant
+
+    c = getattr(eng, "cur_contract", None)
+    if c is None or not c.options.get("split_small_counts") or eng.spec_mode or not isinstance(v, Sym):
+        return v
+    qf, stack = [], list(eng.pc)
+    while stack:
+        h = stack.pop()
+        if z3.is_and(h):
+            stack.extend(h.children())
+        elif not _has_quant(h):
+            qf.append(h)
+    sol = z3.Solver()
+    sol.set("timeout", 3000)
+    sol.add(*qf)
+    sol.add(z3.Or(v.z < 0, v.z > SMALL_COUNT_CAP))
+    if sol.check() != z3.unsat:
+        return v
+    for k in range(SMALL_COUNT_CAP):
+        if eng.branch(eng.sbool(v.z == k)):
+            return k
+    return SMALL_COUNT_CAP
+
+
+
+# ---------------------------------------------------------------- np.unique
+def np_unique(eng, args, kwargs):
+    """np.unique(a, return_index, return_inverse, return_counts) of a concrete-shape array with symbolic contents (flattened):
+    the sorted distinct values; index[k] = FIRST position of value k in a; a == unique[inverse]; counts.  The order of the
+    entries is decided by forking on the comparisons (insertion from the right end: an ascending input costs one fork per
+    entry, `equal to the previous one or larger`)."""
+    a = args[0]
+    if isinstance(a, (PList, list, tuple)):
+        a = narr._as_narr(eng, a)
+    if not isinstance(a, NArr) or kwargs.get("axis") is not None or len(args) > 4:
+        raise Unsupported("np.unique on an array of symbolic length / along an axis")
+    flags = [kwargs.get(k, args[i + 1] if len(args) > i + 1 else False) for i, k in enumerate(("return_index", "return_inverse", "return_counts"))]
+    if any(not isinstance(f, bool) for f in flags) or (set(kwargs) - {"return_index", "return_inverse", "return_counts", "axis", "equal_nan"}):
+        raise Unsupported("np.unique form")
+    used(eng, "np.unique: sorted distinct values; return_index = first occurrence; a == unique[inverse]; counts")
+    uniq = []  # [value, first position, [positions]]
+    for j, v in enumerate(a.items):
+        p = len(uniq)
+        while True:
+            if p == 0:
+                uniq.insert(0, [v, j, [j]])
+                break
+            u = uniq[p - 1]
+            if eng.branch(eng.compare(ast.Eq(), v, u[0])):
+                u[2].append(j)
+                break
+            if eng.branch(eng.compare(ast.Gt(), v, u[0])):
+                uniq.insert(p, [v, j, [j]])
+                break
+            p -= 1
+    m = len(uniq)
+    out = [NArr((m,), [u[0] for u in uniq], a.kind)]
+    if flags[0]:
+        out.append(NArr((m,), [u[1] for u in uniq], "int"))
+    if flags[1]:
+        inv = [0] * len(a.items)
+        for k, u in enumerate(uniq):
+            for j in u[2]:
+                inv[j] = k
+        out.append(NArr((len(inv),), inv, "int"))
+    if flags[2]:
+        out.append(NArr((m,), [len(u[2]) for u in uniq], "int"))
+    return out[0] if len(out) == 1 else tuple(out)
+
+
+# ------------------------------------------------- np.round / np.around / round
+def _round_half_even(eng, v, d):
+    """the multiple of 10**-d nearest to v, ties to the even multiple (over the reals: what np.round / round compute up to
+    float rounding of the scaling)"""
+    if not isinstance(d, int):
+        raise Unsupported("round with a symbolic number of decimals")
+    scale = Fraction(10) ** d
+    if not isinstance(v, Sym):
+        if kind_of(v) is None:
+            raise Unsupported("round argument")
+        return Fraction(round(frac(v) * scale)) / scale
+    used(eng, "np.round/np.around/round(x, d): k / 10**d with k the integer nearest to x * 10**d, ties to the even k (reals; float rounding of the scaling ignored)")
+    xz = to_z3(v, "real") * z3.RealVal(str(scale))
+    key = ("round", xz.sexpr())
+    if key not in eng.ghost:
+        k = fresh("int", "round")
+        kr = z3.ToReal(k.z)
+        half = z3.RealVal("1/2")
+        eng.assume(z3.And(kr - half <= xz, xz <= kr + half, z3.Implies(z3.Or(xz == kr - half, xz == kr + half), k.z % 2 == 0)))
+        eng.ghost[key] = k
+    return eng.ghost[key], scale
+
+
+def np_round(eng, args, kwargs):
+    v = args[0]
+    d = kwargs.get("decimals", args[1] if len(args) > 1 else 0)
+    if kwargs.get("out") is not None or len(args) > 2:
+        raise Unsupported("np.round with out=")
+    if isinstance(v, NArr):
+        return narr.emap(eng, lambda x: np_round(eng, [x, d], {}), v, kind=v.kind)
+    if isinstance(v, SArr):
+        raise Unsupported("np.round of a symbolic-length array")
+    if isinstance(v, int) or (isinstance(v, Sym) and v.kind == "int"):
+        if isinstance(d, int) and d >= 0:
+            return v
+        raise Unsupported("np.round of an int to negative decimals")
+    r = _round_half_even(eng, v, d)
+    if isinstance(r, tuple):
+        k, scale = r
+        return eng.snum(z3.ToReal(k.z) / z3.RealVal(str(scale)), "real")
+    return r
+
+
+_prev_round = _prev(round)
+
+
+def b_round(eng, args, kwargs):
+    v = args[0]
+    d = kwargs.get("ndigits", args[1] if len(args) > 1 else None)
+    if not ((isinstance(v, Sym) and v.kind == "real") or isinstance(v, (Fraction, float))):
+        if _prev_round is not None:
+            return _prev_round(eng, args, kwargs)
+        if isinstance(v, int) and (d is None or (isinstance(d, int) and d >= 0)):
+            return v
+        raise Unsupported("round argument")
+    r = _round_half_even(eng, v, 0 if d is None else d)
+    if isinstance(r, tuple):
+        k, scale = r
+        return k if d is None else eng.snum(z3.ToReal(k.z) / z3.RealVal(str(scale)), "real")
+    return int(r) if d is None else r
 
 
 # ---------------------------------------------------------------- np.arange
@@ -405,9 +551,30 @@ def sig_convolve(eng, args, kwargs):
         if not (isinstance(a, SArr) or (isinstance(a, NArr) and a.ndim == 1)):
             raise Unsupported("signal.convolve operand")
     eng.assumptions.add("scipy-model:signal.convolve(in1, in2, mode='same') returns a new 1-D array of len(in1); values unconstrained")
+    ones = _all_ones(in1) and _all_ones(in2)
+    if ones:
+        # the number of overlapping taps: at least one at every output position (cross-checked in tools/xcheck_ext_C16.py)
+        eng.assumptions.add("scipy-model:signal.convolve(ones(n), ones(w), mode='same') has every entry >= 1")
     if isinstance(in1, NArr):
-        return NArr(in1.shape, [fresh("real", "conv") for _ in in1.items], "real")
-    return SArr.fresh("real", in1.n, name="conv")
+        out = NArr(in1.shape, [fresh("real", "conv") for _ in in1.items], "real")
+        if ones:
+            for x in out.items:
+                eng.assume(x.z >= 1)
+        return out
+    out = SArr.fresh("real", in1.n, name="conv")
+    if ones:
+        j = z3.Int(fresh_name("j"))
+        eng.assume(z3.ForAll([j], z3.Implies(z3.And(j >= 0, j < out.nz()), out.get(j).z >= 1)))
+    return out
+
+
+def _all_ones(a):
+    if isinstance(a, NArr):
+        return all((not isinstance(x, Sym)) and kind_of(x) is not None and frac(x) == 1 for x in a.items)
+    if isinstance(a, SArr) and getattr(a, "view_of", None) is None:
+        z = z3.simplify(a.arr)
+        return z3.is_K(z) and z3.is_rational_value(z.arg(0)) and z.arg(0).as_fraction() == 1
+    return False
 
 
 # ------------------------------------ a[lo:hi] = v on a symbolic-length array
@@ -468,15 +635,21 @@ def np_argmin(eng, args, kwargs):
     items = a.items
     if not items:
         raise ProgExc(ValueError, "attempt to get argmin of an empty sequence")
-    cur = None
-    for j, v in enumerate(items):
-        if _is_inf(v) and v > 0:
+    cand = [j for j, v in enumerate(items) if not (_is_inf(v) and v > 0)]
+    if not cand:
+        return 0
+    # one path per possible answer (not one per sequence of running minima): position j is the answer iff its value is smaller
+    # than every earlier candidate and not larger than every later one
+    for n_, j in enumerate(cand):
+        if n_ == len(cand) - 1:
+            return j
+        conds = [eng.compare(ast.Lt(), items[j], items[i]) for i in cand[:n_]] + [eng.compare(ast.LtE(), items[j], items[i]) for i in cand[n_ + 1:]]
+        if any(c is False for c in conds):
             continue
-        if cur is None:
-            cur = j
-        elif eng.branch(eng.compare(ast.Lt(), v, items[cur])):
-            cur = j
-    return cur if cur is not None else 0
+        zs = [to_z3(c, "bool") for c in conds if c is not True]
+        if not zs or eng.branch(eng.sbool(z3.And(*zs))):
+            return j
+    return cand[-1]
 
 
 def np_unravel_index(eng, args, kwargs):
@@ -529,6 +702,10 @@ def install():
     E[np.ceil] = _round_model("ceil", True)
     E[np.floor] = _round_model("floor", False)
     E[int] = b_int
+    E[np.unique] = np_unique
+    E[np.round] = np_round
+    E[np.around] = np_round
+    E[round] = b_round
     E[np.arange] = np_arange
     E[np.zeros] = _filled(0, _prev(np.zeros))
     E[np.ones] = _filled(1, _prev(np.ones))
